@@ -122,6 +122,8 @@ def build_scope(sc, sid):
     row("")
     row('import "m/d"')
     row("")
+    # a permanent directive that matches nothing: every file of the package has an @ignore of its own
+    row("// @ignore ZZZ9")
     slotrow("D1")
     row("func fn1(p *d.T, s d.S) {")
     slotrow("S11", "\t")
